@@ -273,7 +273,7 @@ func main() {
 	if r.Workers != 1 {
 		r.Workers = 1 // the loop-tick counter is process-global
 	}
-	ks := kCatalogue(r.Rng("c16/k"), r.Pick(3000, 300000))
+	ks := kCatalogue(r.Rng("c16/k"), r.Pick(40000, 1500000))
 	var c Case
 	if r.LoadReplay(&c) {
 		runCase(r, c, ks)
@@ -284,7 +284,7 @@ func main() {
 	for _, k := range ks {
 		shortVector(r, k)
 	}
-	for i := 0; i < r.Pick(30, 600); i++ {
+	for i := 0; i < r.Pick(150, 3000); i++ {
 		triple(r, Case{Kind: "triple", Stream: fmt.Sprintf("c16/triple/%d", i)}, ks)
 	}
 	r.Sample("k", fmt.Sprintf("%x", ks[40]))
